@@ -256,6 +256,13 @@ impl TimerWheel {
     }
 }
 
+#[cfg(calloop_verif)]
+impl TimerWheel {
+    pub(crate) fn verif_len(&self) -> usize {
+        self.heap.len()
+    }
+}
+
 // trait implementations for TimeoutData
 
 impl std::cmp::Ord for TimeoutData {
